@@ -31,7 +31,7 @@ func (s *Module) UpdateStateValidators(height uint32, pubs keys.PublicKeys) {
 
 func (s *Module) getKeyCacheForHeight(h uint32) keyCache {
 	for i := range slices.Backward(s.keys) {
-		if s.keys[i].height <= h && (i+1 == len(s.keys) || s.keys[i+1].height < h) {
+		if s.keys[i].height <= h && (i+1 == len(s.keys) || s.keys[i+1].height > h) {
 			return s.keys[i]
 		}
 	}
